@@ -129,7 +129,7 @@ CLAIMS['C14'] = dict(
          'None exactly when the entry is null / empty or a segment is not valid VLQ, whatever the scratch vector held on entry; decode_hermes around it (map + collect written as '
          'the loop of pushes, R-map-collect) refuses a document without the key, builds one function map per entry in order, each from its own entry only, keeps the raw metadata for '
          're-encoding, and fails exactly when decode_regular of the rest fails (decode_regular itself: u4 / u10); '
-         '(3) SourceMapHermes::get_original_function_name(offset) is the scope lookup of the token that C04 says (0, offset) resolves to, nothing when no token lies at or before it.',
+         '(3) SourceMapHermes::get_original_function_name(offset) is the scope lookup of the token that C04 says (0, offset) resolves to, nothing when no token lies at or before it; DecodedMap::get_original_function_name gives that answer for a Hermes map on line 0, nothing on any other line, and hands regular / index maps their arguments (nothing without a name or a view).',
     note=_TB + 'function maps are required ordered by (line, column), as Metro emits them. Values leaving the u32 range are outside the domain (Unfit).',
     design_ref='DESIGN.md 5 C14')
 
@@ -247,7 +247,7 @@ NOT_APPLICABLE['C16'] = ('concurrency (interleavings of threads sharing a Source
 # parts of each property that no discharged obligation covers (reported in every evidence file, never counted)
 NOT_COVERED = {
     'C15': ['the sequential reading of Mutex / AtomicUsize is an assumption (R-seq); threads are C16', 'SourceView::from_string / clone (other constructors), Lines as an Iterator impl (verified as the inherent method, R-trait-inherent)', 'the unsafe lifetime extension of cached lines'],
-    'C17': ['SourceMapIndex / DecodedMap::get_original_function_name wrappers (index lookup, proved in C08, then the same walk): not under contract; the bounded stand-in function_name covers SourceView:: and SourceMap::get_original_function_name', 'token columns that fall inside a surrogate pair (outside the precondition `aligned`): bounded only', 'std\'s Take / Peekable adapters (assumed contract over the walker\'s proved contract)'],
+    'C17': ['SourceMapIndex::get_original_function_name (index lookup, proved in C08, then the same walk; known finding D18 lives there): not under contract; DecodedMap::get_original_function_name is under contract as a dispatch (u8); the bounded stand-in function_name covers SourceView::, SourceMap:: and SourceMapIndex::get_original_function_name', 'token columns that fall inside a surrogate pair (outside the precondition `aligned`): bounded only', 'std\'s Take / Peekable adapters (assumed contract over the walker\'s proved contract)'],
     'C18': ['how BufReader::lines cuts bytes into lines (std; assumed -- exercised by the bounded stand-in discover incl. texts larger than any buffer)', 'that the base64 reader (data_encoding) inverts the base64 writer (base64_simd) -- an assumption between two dependencies, exercised by the bounded stand-in discover; on it, to_data_url and decode_data_url are proved to fit together (the preamble written is one the reader accepts; lemma_own_data_url_decodes_to_the_json_text)', 'that the serialised form of every map parses to a document with the keys (serde layer): bounded (header, discover); the predicates themselves are under contract (u21)'],
     'C19': ['the std adapter chains inside make_relative_path are behind assumed contracts (split/filter/collect, sort_by_key, repeat/take/collect, join); the bounded stand-in relpath exercises the real ones', 'find_common_prefix (the rewrite "~" option): not part of C19'],
     'C20': ['scroll::Pread internals and the derive(Pread) expansion (assumed contracts; exercised by the bounded stand-in ram_bundle)', 'UnbundleRamBundle (file-system based variant)', 'split_ram_bundle / SplitRamBundleModuleIter (composition with flatten and SourceMapBuilder)', 'that Iterator::next of RamBundleModuleIter is the inherent body verified here (R-trait-inherent: same text, emitted outside the trait impl)'],
@@ -256,7 +256,7 @@ NOT_COVERED = {
     'C05': ['dependencies (serde_json, url, bitvec, data-encoding, base64-simd, debugid)', 'sourceview.rs, js_identifiers.rs, detector.rs line scan, Display/Debug impls, ram_bundle.rs',
             'flatten (+ off_col / + off_line overflow, design-phase defect D6), rewrite, adjust_mappings, range bitfield writer (D4), decode_hermes', 'allocation in proportion to the input; wall-clock (only termination is proved)'],
     'C08': ['the agreement theorems quantify over index maps whose sections are as the property describes them at every level of nesting (offsets strictly increasing, distinct generated positions inside a section, every moved token before the next offset); other index maps: bounded stand-ins index_flatten / index_nested', 'the hypotheses of the agreement lemma are the postconditions of executed functions; no concrete witness is constructed inside Verus (Vec values cannot be built in spec code), the stand-ins index_flatten / index_nested run the real functions on such inputs'],
-    'C14': ['DecodedMap::get_original_function_name dispatch (line != 0 => nothing for Hermes maps): bounded', 'stability under serialise/decode: both halves are proved over the raw document (SourceMapHermes::as_raw_sourcemap writes x_facebook_sources verbatim, u22; decode_hermes keeps it and reads the function maps from it, u16); that serde carries x_facebook_sources through the JSON text is bounded (hermes_scope)'],
+    'C14': ['stability under serialise/decode: both halves are proved over the raw document (SourceMapHermes::as_raw_sourcemap writes x_facebook_sources verbatim, u22; decode_hermes keeps it and reads the function maps from it, u16); that serde carries x_facebook_sources through the JSON text is bounded (hermes_scope)'],
     'C01': ['the serde_json layer (writer and reader of the JSON text, serde attributes): bounded stand-in roundtrip'],
     'C02': ['the six `let` lines of decode_regular that unpack the raw document (checked textually, not verified)', 'termination of the decode_index / decode_common recursion (bounded by serde_json)'],
     'C03': ['the serde skip_serializing_if attributes (that a None field writes no key): bounded stand-in raw_keys'],
